@@ -460,7 +460,7 @@ func init() {
 			var jobs []run.Job
 			n, per := 16, 10000
 			if tier == "thorough" {
-				n, per = 64, 20000
+				n, per = 64, 80000
 			}
 			for i := 0; i < n; i++ {
 				jobs = append(jobs, run.Job{Family: "trees", Seed: seed*100000 + int64(i), N: per})
